@@ -3,10 +3,15 @@
    C09/Values.v (strings are code-point lists, so positions count Unicode characters by construction).
    Equality inside index of / list contains / union / distinct values is evaluate_equals =
    eval_ternary_equality(..).unwrap_or(false), i.e. C09's teq.
-   Number arithmetic is exact on (coefficient, exponent) pairs; division rounds to 34 digits half-even.
-   Sums are assumed to stay within 34 digits (the check generates such operands).
+   Number arithmetic (sum, mean, median, stddev) is the SHARED decimal128 layer Base/DecRound.v: dadd / dsub / ddiv / dsqrt
+   (exact integer result, one rounding to 34 digits half-even, gradual underflow, overflow = None), followed by the
+   removal of trailing zeros that feel-number/src/number.rs applies after every operator (`reduced`), exactly as
+   C02/Model.v composes f_add / f_sub / f_div / f_sqrt.  There is no private addition or division any more and no
+   assumption on the size of a sum: a sum of more than 34 digits is rounded, step by step, left to right, as the
+   Rust loops do; a result outside the decimal128 range is None = the FEEL value null.
    `xxx_orig` = the function at the pinned commit where a defect was repaired.  No proofs here. *)
 From Coq Require Import List NArith ZArith Bool Arith.
+From DV Require Import Base.Dec Base.DecRound.
 From DV Require Import C09.Values C09.Model.
 Import ListNotations.
 Open Scope Z_scope.
@@ -34,39 +39,36 @@ End Conv.
 (* truncation towards zero (dec_trunc) *)
 Definition ntrunc (c e : Z) : Z * Z := if 0 <=? e then (c, e) else (Z.quot c (10 ^ (- e)), 0).
 
-Definition nadd (a b : Z * Z) : Z * Z :=
-  let e := Z.min (snd a) (snd b) in (fst a * 10 ^ (snd a - e) + fst b * 10 ^ (snd b - e), e).
+(* ---- the number layer: a FEEL number (c, e) = c * 10^e as a decimal128 datum of Base/Dec.v and back (the sign of a zero is not kept) ---- *)
+Definition to_dec (p : Z * Z) : dec := of_Z (fst p) (snd p).
+Definition of_dec (d : dec) : Z * Z := (sval d, expo d).
+(* what a FeelNumber operator returns: the decimal128 result with its trailing zeros removed (number.rs: dec_reduce), None = not finite *)
+Definition num_result (o : option dec) : option (Z * Z) := option_map of_dec (reduced o).
+Definition nadd (a b : Z * Z) : option (Z * Z) := num_result (dadd (to_dec a) (to_dec b)).
+Definition nsub (a b : Z * Z) : option (Z * Z) := num_result (dsub (to_dec a) (to_dec b)).
+Definition ndiv (a b : Z * Z) : option (Z * Z) := num_result (ddiv (to_dec a) (to_dec b)).
+Definition nsqrt (a : Z * Z) : option (Z * Z) := num_result (dsqrt (to_dec a)).
 
-Fixpoint digits_fuel (fuel : nat) (n : Z) : Z :=
-  match fuel with O => 0 | S f => if n =? 0 then 0 else 1 + digits_fuel f (n / 10) end.
-Definition digits (n : Z) : Z := digits_fuel (S (Z.to_nat (Z.log2 (Z.abs n)))) (Z.abs n).
+(* FeelNumber::square is decNumberPower(x, 2): the integer path multiplies in a working context of 34 + 1 + 2 = 37 digits
+   (same emax / emin, so its subnormal grid is -6143 - 36) and then fits the 37-digit product to the 34 digits of the
+   decimal128 context: TWO roundings, both half-even.  round_prec p is Base/DecRound.v round34 with the precision as an
+   argument (round_prec 34 = round34: C08/NumProofs.v). *)
+Definition round_prec (p : N) (s : bool) (m : N) (e : Z) : option dec :=
+  let etiny := EMIN - (Z.of_N p - 1) in
+  let etop := EMAX - (Z.of_N p - 1) in
+  if (m =? 0)%N then Some (mkdec s 0 (Z.max etiny (Z.min etop e))) else
+  let e1 := Z.max etiny (Z.max e (e + Z.of_N (ndigits m) - Z.of_N p)) in
+  let c1 := round_half_even m (Z.to_N (e1 - e)) in
+  let (c2, e2) := if (c1 =? 10 ^ p)%N then ((10 ^ (p - 1))%N, e1 + 1) else (c1, e1) in
+  if EMAX <? e2 + Z.of_N (ndigits c2) - 1 then None
+  else if etop <? e2 then Some (mkdec s (c2 * 10 ^ Z.to_N (e2 - etop))%N etop)
+  else Some (mkdec s c2 e2).
+Definition dsquare (a : dec) : option dec :=
+  obind (round_prec 37 false (coef a * coef a)%N (expo a + expo a)) (fun y => round34 false (coef y) (expo y)).
+Definition nsquare (a : Z * Z) : option (Z * Z) := num_result (dsquare (to_dec a)).
 
-(* round q * 10^e (q >= 0, `sticky` = a non-zero remainder below q) to 34 digits, half-even *)
-Definition round34 (q : Z) (sticky : bool) (e : Z) : Z * Z :=
-  let x := digits q - 34 in
-  if x <=? 0 then (q, e)     (* the caller has already folded the remainder into q when x <= 0 *)
-  else
-    let p := 10 ^ x in
-    let q' := q / p in
-    let r := q mod p in
-    let half := 5 * 10 ^ (x - 1) in
-    let up := match Z.compare r half with
-              | Gt => true
-              | Eq => sticky || Z.odd q'
-              | Lt => false end in
-    ((if up then q' + 1 else q'), e + x).
-
-(* a / b for b <> 0, correctly rounded to 34 significant digits *)
-Definition ndiv (a b : Z * Z) : Z * Z :=
-  let sgn := negb (Bool.eqb (fst a <? 0) (fst b <? 0)) in
-  let x := Z.abs (fst a) in
-  let y := Z.abs (fst b) in
-  let k := 36 + digits y in
-  let num := x * 10 ^ k in
-  let q := num / y in
-  let r := num mod y in
-  let '(c, e) := round34 q (negb (r =? 0)) (snd a - snd b - k) in
-  ((if sgn then - c else c), e).
+(* a running result: None once a step left the number range (the Rust value is an Infinity from there on) *)
+Definition nadd_opt (acc : option (Z * Z)) (x : Z * Z) : option (Z * Z) := obind acc (fun s => nadd s x).
 
 (* ---------------- strings ---------------- *)
 Fixpoint prefixb (p s : list N) : bool :=
@@ -90,6 +92,7 @@ Variable toint : Z -> Z -> option Z.
 Variable max_skips_null : bool.     (* pinned commit: max ignores null items, min does not *)
 Variable all_stops_early : bool.    (* pinned commit: all() returns null at the first non-boolean item *)
 Variable sublist_guard : bool.      (* repaired: sublist(l, -p, n) with p > length is null; pinned commit: usize underflow *)
+Variable overflow_infinite : bool.  (* pinned commit: sum / mean / median return Infinity (not a FEEL value, None below) where a sum leaves the number range; repaired: null *)
 
 Definition to_usize := to_usize_gen toint.
 Definition to_isize := to_isize_gen toint.
@@ -320,12 +323,17 @@ Fixpoint numbers_of (vs : list value) : option (list (Z * Z)) :=
   | _ :: _ => None
   end.
 Definition vnum (p : Z * Z) : value := VNum (fst p) (snd p).
-Definition nsum (ns : list (Z * Z)) : Z * Z := fold_left nadd ns (0, 0).
+Definition vopt (o : option (Z * Z)) : value := match o with Some p => vnum p | None => VNull end.
+(* the running sum of a loop `sum += x` that starts with `start` *)
+Definition nsum_from (start : Z * Z) (ns : list (Z * Z)) : option (Z * Z) := fold_left nadd_opt ns (Some start).
 
+(* sum: starts with the first item (core.rs: `let mut sum = n; for value in values.iter().skip(1) { sum += v }`) *)
 Definition b_sum (vs : list value) : value :=
-  match vs with [] => VNull | _ => match numbers_of vs with Some ns => vnum (nsum ns) | None => VNull end end.
+  match vs with [] => VNull | _ => match numbers_of vs with Some (n :: ns) => vopt (nsum_from n ns) | _ => VNull end end.
+(* mean: starts with zero, adds every item, divides by the count (`sum / values.len().into()`) *)
 Definition b_mean (vs : list value) : value :=
-  match vs with [] => VNull | _ => match numbers_of vs with Some ns => vnum (ndiv (nsum ns) (zlen ns, 0)) | None => VNull end end.
+  match vs with [] => VNull | _ =>
+    match numbers_of vs with Some ns => vopt (obind (nsum_from (0, 0) ns) (fun s => ndiv s (zlen ns, 0))) | None => VNull end end.
 
 (* stable insertion sort by value *)
 Definition nle (a b : Z * Z) : bool := is_le (ncmp (fst a) (snd a) (fst b) (snd b)).
@@ -333,6 +341,7 @@ Fixpoint ninsert (x : Z * Z) (l : list (Z * Z)) : list (Z * Z) :=
   match l with [] => [x] | y :: r => if is_lt (ncmp (fst x) (snd x) (fst y) (snd y)) then x :: l else y :: ninsert x r end.
 Definition nsort (l : list (Z * Z)) : list (Z * Z) := fold_left (fun acc x => ninsert x acc) l [].
 
+(* median: the middle item, or `(list[index - 1] + list[index]) / FeelNumber::two()` *)
 Definition b_median (vs : list value) : value :=
   match vs with [] => VNull | _ =>
     match numbers_of vs with
@@ -340,10 +349,17 @@ Definition b_median (vs : list value) : value :=
         let s := nsort ns in
         let k := (length s / 2)%nat in
         if Nat.even (length s)
-        then vnum (ndiv (nadd (nth (k - 1) s (0, 0)) (nth k s (0, 0))) (2, 0))
+        then vopt (obind (nadd (nth (k - 1) s (0, 0)) (nth k s (0, 0))) (fun t => ndiv t (2, 0)))
         else vnum (nth k s (0, 0))
     | None => VNull end
   end.
+
+(* The pinned commit returns the non-finite FeelNumber (Infinity) where a sum leaves the number range: that is not a FEEL value.
+   It happens exactly when every item is a number and the function of this model is null. *)
+Definition is_null (v : value) : bool := match v with VNull => true | _ => false end.
+Definition all_numbers (vs : list value) : bool :=
+  match vs with [] => false | _ => match numbers_of vs with Some _ => true | None => false end end.
+Definition out_of_range (f : list value -> value) (vs : list value) : bool := all_numbers vs && is_null (f vs).
 
 (* runs of equal values of a sorted list: (count, first representative) *)
 Fixpoint runs (l : list (Z * Z)) (acc : list (nat * (Z * Z))) : list (nat * (Z * Z)) :=
@@ -386,16 +402,25 @@ Definition spread (f : list value -> value) (args : list value) : value :=
   | _ => f args
   end.
 
-(* positional.rs; None = trap *)
+Definition spread_b (f : list value -> bool) (args : list value) : bool :=
+  match args with
+  | [] => false
+  | [VList xs] => f xs
+  | _ => f args
+  end.
+Definition finite_guard (f : list value -> value) (args : list value) : option value :=
+  if overflow_infinite && spread_b (out_of_range f) args then None else Some (spread f args).
+
+(* positional.rs; None = trap, or a result that is not a FEEL value *)
 Definition positional (b : bif) (args : list value) : option value :=
   match b, args with
   | All, _ => Some (spread b_all args)
   | Any, _ => Some (spread b_any args)
   | Max, _ => Some (spread b_max args)
   | Min, _ => Some (spread b_min args)
-  | Sum, _ => Some (spread b_sum args)
-  | Mean, _ => Some (spread b_mean args)
-  | Median, _ => Some (spread b_median args)
+  | Sum, _ => finite_guard b_sum args
+  | Mean, _ => finite_guard b_mean args
+  | Median, _ => finite_guard b_median args
   | Mode, _ => Some (spread b_mode args)
   | Append, l :: (_ :: _) as vs => Some (b_append l vs)
   | Concatenate, _ :: _ => Some (b_concatenate args)
@@ -442,6 +467,10 @@ Definition named2 (p q : pname) (f : value -> value -> value) (ps : list (pname 
 Definition named_list (f : list value -> value) (ps : list (pname * value)) : value :=
   match get_param PList ps with Some (VList xs) => f xs | _ => VNull end.
 
+Definition named_guard (f : list value -> value) (ps : list (pname * value)) : option value :=
+  if overflow_infinite && match get_param PList ps with Some (VList xs) => out_of_range f xs | _ => false end
+  then None else Some (named_list f ps).
+
 (* named.rs; `mean_is_median`: the pinned commit calls core::median from the named mean *)
 Variable mean_is_median : bool.
 Definition named (b : bif) (ps : list (pname * value)) : option value :=
@@ -450,9 +479,9 @@ Definition named (b : bif) (ps : list (pname * value)) : option value :=
   | Any => Some (named_list b_any ps)
   | Max => Some (named_list b_max ps)
   | Min => Some (named_list b_min ps)
-  | Sum => Some (named_list b_sum ps)
-  | Mean => Some (named_list (if mean_is_median then b_median else b_mean) ps)
-  | Median => Some (named_list b_median ps)
+  | Sum => named_guard b_sum ps
+  | Mean => named_guard (if mean_is_median then b_median else b_mean) ps
+  | Median => named_guard b_median ps
   | Mode => Some (named_list b_mode ps)
   | Append | Concatenate | Union => Some VNull
   | Contains => Some (named2 PString PMatch b_contains ps)
@@ -512,8 +541,8 @@ Definition param_names (b : bif) (arity : nat) : option (list pname) :=
   end.
 
 (* current code *)
-Definition pos := positional to_int false false true.
-Definition nam := named to_int false false true false.
+Definition pos := positional to_int false false true false.
+Definition nam := named to_int false false true false false.
 (* pinned commit *)
-Definition pos_orig := positional to_int_orig true true false.
-Definition nam_orig := named to_int_orig true true false true.
+Definition pos_orig := positional to_int_orig true true false true.
+Definition nam_orig := named to_int_orig true true false true true.
